@@ -101,6 +101,7 @@ def run(ctx):
             br.verify_case(ctx, root, c, pairs, r, f'case-{i}')
         hard_errors(ctx, root)
         preallocated(ctx, root)
+        refused_by_mode_or_permission(ctx, root)
         if not ctx.quick:
             big_copy(ctx, root)
     ctx.cov['rule'] = ('sizes {0,1,b-1,b,b+1,kb-1,kb+1,3b+r} x b in {1,2,7,4096,65536,1MB,usize::MAX(--no-progress)} x dense/sparse (4K data runs, >=64K holes, >32 extents) '
@@ -163,6 +164,41 @@ def hard_errors(ctx, root):
             if why:
                 ctx.violation(f'hard-{i}.json', dict(case=c.__dict__, argv=br.argv_of(c), plan=c.plan, stderr=r.stderr[-400:]),
                               f'C01: exit 0 but {why} after a failing data call; {c.driver} b={br.eff_bsize(c)} plan={c.plan}')
+
+
+def refused_by_mode_or_permission(ctx, root):
+    """two ways a file's bytes cannot be produced that are decided BEFORE any data call: (1) --reflink=always on a file system
+    that cannot clone; (2) an unprivileged caller and a source it may not read / an existing destination it may not write.
+    xcp may fail; exit 0 still means every destination file is identical to its source"""
+    import shutil, subprocess
+    for driver in ('parfile', 'parblock'):
+        d = root + '/RA'; shutil.rmtree(d, ignore_errors=True); os.makedirs(d + '/S/sub')
+        data = {'S/a': os.urandom(70000), 'S/sub/b': os.urandom(5), 'S/c': os.urandom(1 << 20)}
+        for k, v in data.items():
+            open(f'{d}/{k}', 'wb').write(v)
+        r = scen.run_xcp(d, ['-r', '--driver', driver, '--reflink=always', 'S', 'D'], timeout=60)
+        ctx.count(f'reflink_always_unsupported.exit.{r.cls}'); ctx.case(('reflink-always', driver), True)
+        bad = [k for k, v in data.items() if not os.path.isfile(f'{d}/D/{k[2:]}') or open(f'{d}/D/{k[2:]}', 'rb').read() != v]
+        if r.cls == '0' and bad:
+            ctx.violation(f'reflink-always-{driver}.json', dict(driver=driver, differing=bad, stderr=r.stderr[-300:]),
+                          f'C01: --reflink=always on a file system without clone support: exit 0 but {bad} differ from their sources ({driver})')
+        for shape in ('unreadable-source', 'unwritable-destination'):
+            u = root + '/UP'; subprocess.run(f'chmod -R u+rwx {u} 2>/dev/null; rm -rf {u}', shell=True); os.makedirs(u + '/S'); os.makedirs(u + '/D/S')
+            data = {'a': os.urandom(3000), 'secret': os.urandom(4000), 'z': os.urandom(10)}
+            for k, v in data.items():
+                open(f'{u}/S/{k}', 'wb').write(v)
+            subprocess.run(f'chown -R 61234:61234 {u}', shell=True)
+            if shape == 'unreadable-source':
+                os.chown(u + '/S/secret', 0, 0); os.chmod(u + '/S/secret', 0o600)
+            else:
+                open(u + '/D/S/secret', 'wb').write(b'old'); os.chown(u + '/D/S/secret', 0, 0); os.chmod(u + '/D/S/secret', 0o644)
+            r = scen.run_xcp(u, ['-r', '--driver', driver, '--workers', '2', 'S', 'D'], ids=(61234, 61234, []), timeout=60)
+            ctx.count(f'unprivileged.{shape}.exit.{r.cls}'); ctx.case(('unprivileged', shape, driver), True)
+            bad = [k for k, v in data.items() if not os.path.isfile(f'{u}/D/S/{k}') or open(f'{u}/D/S/{k}', 'rb').read() != v]
+            if r.cls == '0' and bad:
+                ctx.violation(f'unprivileged-{shape}-{driver}.json', dict(driver=driver, shape=shape, differing=bad, stderr=r.stderr[-300:]),
+                              f'C01: as an unprivileged user with an {shape}: exit 0 but {bad} differ from their sources ({driver})')
+            subprocess.run(f'chmod -R u+rwx {u} 2>/dev/null; rm -rf {u}', shell=True)
 
 
 def preallocated(ctx, root):
